@@ -1,2 +1,3 @@
 pub mod name;
 pub mod wire;
+pub mod zone;
